@@ -228,6 +228,16 @@ class Scenario:
                         sc.log("td-reg", late_tid, by=path, phase="teardown", late=True)
 
                     add_teardown_callback(registering)
+                elif tid % 3 == 0:
+                    # a bound method of an object nothing else refers to (`add_teardown_callback(LockFile(path).release)`)
+                    class LockFile:
+                        def __init__(self, tid: int) -> None:
+                            self.tid = tid
+
+                        def release(self) -> None:
+                            sc.log("td-run", self.tid, form="method-of-a-temporary")
+
+                    add_teardown_callback(LockFile(tid).release)
                 else:
                     add_teardown_callback(lambda tid=tid: sc.log("td-run", tid, form="sync"))
                 sc.log("td-reg", tid, by=path, phase=phase)
